@@ -283,6 +283,28 @@ def case_add_variable_shared_domains():
     return a == exp and b == exp and c == exp, f"constructor {a}, add_variable {b}, add_variables {c}"
 
 
+def case_golomb_own_consistency_enumeration():
+    """GolombProblem(5, True): the solution set under the model's own consistency algorithm must be the set under plain bound
+    consistency (the pinned tree: 143956 against 114358 — the algorithm lowered lower bounds it should only raise).  Checked on the
+    symmetry-breaking constraint on the first 25000 vectors (the pinned tree violates it from the 17832nd on), to stay within seconds."""
+    from nucs.examples.golomb.golomb_problem import GolombProblem, golomb_consistency_algorithm, index
+    from nucs.solvers.backtrack_solver import BacktrackSolver
+    from nucs.solvers.consistency_algorithms import register_consistency_algorithm
+
+    g = register_consistency_algorithm(golomb_consistency_algorithm)
+    marks = 5
+    p = GolombProblem(marks, True)
+    bad = 0
+    n = 0
+    for s in BacktrackSolver(p, consistency_alg_idx=g, log_level="ERROR").solve():
+        n += 1
+        if not int(s[index(marks, 0, 1)]) < int(s[index(marks, marks - 2, marks - 1)]):
+            bad += 1
+        if n >= 25000:
+            break
+    return bad == 0, f"{bad} of the first {n} vectors violate the symmetry-breaking constraint"
+
+
 CASES = {
     "affine_eq_ground": (case_affine_eq_ground, ["C06", "C01"]),
     "affine_zero_coeffs": (case_affine_zero_coeffs, ["C06"]),
@@ -299,6 +321,7 @@ CASES = {
     "index_width": (case_index_width, ["C19"]),
     "worker_death": (case_worker_death, ["C18"]),
     "add_variable_shared_domains": (case_add_variable_shared_domains, ["C13", "C01"]),
+    "golomb_own_consistency_enumeration": (case_golomb_own_consistency_enumeration, ["C20"]),
 }
 
 
